@@ -514,7 +514,52 @@ fn typed_use(a: &mut Asm, r: &mut Rng, scratch_slot: U256) {
 /// One storage fragment on slot `s`; stack-neutral.
 fn storage_fragment(a: &mut Asm, r: &mut Rng, s: U256, slots: &[U256]) {
     let other = *r.pick(slots);
-    match r.below(26) {
+    match r.below(28) {
+        26 => {
+            // a comparison result kept in a slot and also used as a number
+            // (or a number also used as a condition): two rules type the one
+            // value differently, in whichever order the value table is walked
+            typed_value(a, r);
+            match r.below(4) {
+                0 => a.op(op::ISZERO),
+                1 => a.push_u(r.below(100) as u128).op(op::LT),
+                2 => a.op(op::CALLER).op(op::EQ),
+                _ => a.push_u(r.below(100) as u128).op(op::SGT),
+            };
+            a.dup(1).push(s).op(op::SSTORE);
+            match r.below(4) {
+                0 => a.push_u(1).op(op::ADD),
+                1 => a.push_u(3).op(op::MUL),
+                2 => a.op(op::ISZERO),
+                _ => a.push_u(1).swap(1).op(op::SUB),
+            };
+            a.push(other).op(op::SSTORE);
+        }
+        27 => {
+            // overlapping constant-offset writes to memory and a hashed slice
+            // that starts between them, at an offset nothing was written to
+            let base = 0x200 + 0x80 * r.below(6) as u128;
+            let d1 = 1 + r.below(31) as u128;
+            let d2 = d1 + 1 + r.below(31 - (d1 as u64 % 31)) as u128;
+            typed_value(a, r);
+            a.push_u(base).op(op::MSTORE);
+            typed_value(a, r);
+            a.push_u(base + d1).op(op::MSTORE);
+            if r.chance(1, 2) {
+                typed_value(a, r);
+                a.push_u(base + 0x20 + d1 + r.below(16) as u128).op(op::MSTORE);
+            }
+            // the slot word of the mapping idiom, further up
+            a.push(s).push_u(base + d2 + 0x20).op(op::MSTORE);
+            a.push_u(0x40).push_u(base + d2).op(op::SHA3);
+            if r.chance(1, 2) {
+                a.op(op::SLOAD);
+                typed_use(a, r, other);
+            } else {
+                typed_value(a, r);
+                a.swap(1).op(op::SSTORE);
+            }
+        }
         25 => {
             // the same element of the array at slot 0 read twice through
             // keccak(mem[m..m+32]) + x: once while that memory was never
